@@ -271,6 +271,62 @@ def eval_layouts(item):
                         out["bad"].append({"kind": "orphans-listing", "cmd": cmd, "layout": layout, "listed": sorted(x[-4:] for x in listed), "expected": sorted(x[-4:] for x in want_listed)})
             finally:
                 shutil.rmtree(d, ignore_errors=True)
+            # ---- the workspace changes while `jobs clean --perform` runs: a scheduler launches a failed job again (pid file of a live
+            # process, failure marker removed) between the processing of two jobs - every failed job x every such moment.  A job
+            # whose directory still exists at that moment is running from then on and must still be there at the end.
+            if cmd["cmd"] == "clean" and cmd["perform"]:
+                failed = [i for i, j in enumerate(layout) if j["state"] == "failed"]
+                for victim in failed:
+                    for moment in range(len(layout) + 1):
+                        d = Path(tempfile.mkdtemp(prefix="c19r", dir=os.environ.get("VERIF_SCRATCH", "/dev/shm")))
+                        try:
+                            ids = build_layout(d, layout)
+                            vp = d / "jobs" / TASK / ids[victim]
+                            state = {"relaunched": False}
+
+                            def relaunch():
+                                if vp.is_dir() and not state["relaunched"]:
+                                    (vp / "task.pid").write_text(json.dumps({"type": "local", "pid": os.getpid()}))
+                                    (vp / "task.failed").unlink()
+                                    state["relaunched"] = True
+
+                            import pathlib
+                            orig_glob = pathlib.Path.glob
+
+                            def glob(self, pattern, *a, **k):
+                                if str(self) == str(d) and pattern == "jobs/*/*":
+                                    def gen():
+                                        n = 0
+                                        for item in orig_glob(self, pattern, *a, **k):
+                                            if n == moment:
+                                                relaunch()
+                                            n += 1
+                                            yield item
+                                        if n == moment:
+                                            relaunch()
+                                    return gen()
+                                return orig_glob(self, pattern, *a, **k)
+
+                            pathlib.Path.glob = glob
+                            try:
+                                args = ["jobs", "--workdir", str(d), "clean"] + (["--filter", cmd["filter"]] if cmd["filter"] else []) + ["--perform"]
+                                res = runner.invoke(cli, args)
+                            finally:
+                                pathlib.Path.glob = orig_glob
+                            out["n"] += 1
+                            out["relaunch"] = out.get("relaunch", 0) + 1
+                            if res.exception is not None and not isinstance(res.exception, SystemExit):
+                                out["bad"].append({"kind": "command-raises:relaunch", "cmd": cmd, "layout": layout, "error": repr(res.exception)[:200]})
+                                continue
+                            if state["relaunched"] and not vp.exists():
+                                out["bad"].append({"kind": "deleted-unselected:running-job:relaunched", "cmd": cmd, "layout": layout, "victim": victim, "moment": moment})
+                            gone = {i for i, ident in enumerate(ids) if not (d / "jobs" / TASK / ident).exists()} - {victim}
+                            want = expected_deleted(layout, cmd) - {victim}
+                            if gone != want:
+                                out["bad"].append({"kind": "other-jobs-differ:relaunched", "cmd": cmd, "layout": layout, "victim": victim, "moment": moment,
+                                                   "deleted": sorted(gone), "expected": sorted(want)})
+                        finally:
+                            shutil.rmtree(d, ignore_errors=True)
     return out
 
 
@@ -303,7 +359,7 @@ def run(ctx):
         "rule": "(a) every filter expression (atoms: =, = with single quotes, var = var, in, not in, ~ over tags model/mode, @state, @name; pure and / or "
                 "chains of 2 and 3 atoms) compiled by the real createFilter and evaluated on 36 real job directories (tags absent/a/b x state markers), "
                 "against a reference evaluator; (b) every layout of two jobs (marker state x tag x membership in jobs / jobs.bak / none) x commands "
-                "{jobs clean +-filter +-perform, orphans +-clean} run through the real click CLI; deleted directories compared with the expected deletion "
+                "{jobs clean +-filter +-perform, orphans +-clean} run through the real click CLI (and, for `jobs clean --perform`, again with a failed job launched again by a scheduler between the processing of any two jobs - every failed job x every moment; that job must survive); deleted directories compared with the expected deletion "
                 "set; distinct_nontrivial = expressions + layouts",
         "samples": clip_samples([E[40][0], E[-1][0], L[5]]),
         "exhaustive": True, "filter_expressions": len(E), "filter_evaluations": n, "layouts": len(L), "cli_invocations": m,
